@@ -2574,7 +2574,10 @@ pub fn parse_ml_predict(input: &str) -> IResult<&str, MLPredictClause<'_>> {
 
     // Extract SELECT variables
     if let Some(select_idx) = input_query.find("SELECT") {
-        if let Some(where_idx) = input_query.find("WHERE") {
+        if let Some(where_idx) = input_query
+            .find("WHERE")
+            .filter(|where_idx| *where_idx >= select_idx + 6)
+        {
             let select_clause = &input_query[select_idx + 6..where_idx].trim();
             // Parse SELECT variables (simplified version - in real code you would use your actual SELECT parser)
             let vars: Vec<&str> = select_clause.split_whitespace().collect();
